@@ -92,7 +92,8 @@ func wantsOf(cf *RCfg) (ws []want, needsAll bool) {
 
 func reloadProbes(w want) []Probe {
 	pp := monSplit(w.pattern)
-	urls := []string{instance(pp, 0), instance(pp, 1)}
+	// two instances, and the first one as a client that names the port sends it
+	urls := []string{instance(pp, 0), instance(pp, 1), withPort(instance(pp, 0), "8443")}
 	ms := w.methods
 	if len(ms) == 0 {
 		ms = []string{"GET", "HEAD"}
